@@ -1,3 +1,5 @@
+import RjModel.Lemmas.SyncLemmas
+import RjModel.Lemmas.DoerLemmas
 import RjModel.Lemmas.BossOutcome
 /-! # C07 — exit status 0 means everything was applied; every failure is reported -/
 namespace Rj.C07
@@ -70,5 +72,25 @@ example :
     (run ⟨"^(?:", ")$"⟩ sc).outcome = .err .doer ∧
     (run ⟨"^(?:", ")$"⟩ sc).destTrace = [.setRoot "D", .getEntries [], .deleteFile "h", .deleteFile "g"] := by
   decide
+
+/-! ### the doer's side: a failing call becomes an error response -/
+
+/-- **A folder that still holds anything cannot be removed** (on the file-system model): whatever the
+entry beneath it is — in particular one that the filters hide, which the boss therefore never planned
+to delete — `remove_dir` fails, so the deletion of that folder is answered with an error … -/
+theorem C07_nonempty_folder_fails (fs : FS) (P : FPath) (c : Comp) (n : Node) (h : fs.get (P ++ [c]) = some n) (fs' : FS) :
+    fs.rmdir P ≠ .ok fs' :=
+  rmdir_nonempty_fails fs P c n h fs'
+
+/-- … **and every failing file-system call of a command is reported**: when the doer model executes a
+`DeleteFolder`, `DeleteFile`, `DeleteSymlink`, `CreateFolder` or `CreateSymlink` whose call fails, its
+output is exactly one `Error` response and the file system is unchanged (never a silent failure). -/
+theorem C07_failed_call_is_reported (st : DoerSt) (r : OpR FS) (c : ErrClass) (hr : r = .err) :
+    reply st r c = .ok st [.error c] := by
+  subst hr; rfl
+
+/-- a successful call is answered with nothing (errors are the only answers to mutating commands) -/
+theorem C07_ok_call_is_silent (st : DoerSt) (fs' : FS) (c : ErrClass) :
+    reply st (.ok fs') c = .ok { st with fs := fs' } [] := rfl
 
 end Rj.C07
